@@ -127,6 +127,16 @@ class Fn:
     def expand_text(self, expr: ast.AST, at, keep=()) -> str:
         return norm_text(self.expand(expr, at, keep=keep))
 
+    def node_of(self, stmt_or_expr):
+        """CFG node whose statement/test is (or contains) the given ast node."""
+        for n in self.cfg.nodes:
+            if n.ast is stmt_or_expr:
+                return n
+        for n in self.cfg.nodes:
+            if n.ast is not None and any(x is stmt_or_expr for x in walk_no_nested(n.ast)):
+                return n
+        return None
+
     def is_param(self, name: str, at) -> bool:
         ds = self.defs_reaching(name, at)
         return len(ds) == 1 and ds[0].kind == "entry" and name in self.params
